@@ -383,10 +383,12 @@ template <class Ev, class FE> void member_action(int site_idx, Ev const& e, FE& 
 
 // entry / exit bodies used by every generated state and front-end
 template <class Ev, class Fsm> void on_entry_cb(const char* site, Ev const& e, Fsm& fsm) {
-    ++st().entries[site];
     DepthGuard dg;
     record("EN", site, e, fsm);
     after_callback('N', site, fsm, true);
+    // counted only when the entry behaviour completes: an entry aborted by an injected exception does not start a
+    // new "entry" of the state for the per-entry completion-guard values (the state was not entered)
+    ++st().entries[site];
 }
 template <class Ev, class Fsm> void on_exit_cb(const char* site, Ev const& e, Fsm& fsm) {
     DepthGuard dg;
